@@ -1,16 +1,91 @@
 (* C04 progress (extension M): completion, not only safety - obligations.
-   Model: Kernel/Progress.v (Kernel/Model.v composed with the sherwood queues of TQueue/Model.v). *)
+   Model: Kernel/Progress.v (Kernel/Model.v composed with the sherwood queues of TQueue/Model.v; task bodies are finite
+   lists of operations; the only way a queued task starts is a scheduler event EPop / ESteal followed by EDispatch). *)
 From Coq Require Import List Bool Arith NArith ZArith.
-From QV Require Import Kernel.GenSpawnTable Kernel.Placement Kernel.Model Kernel.Progress Kernel.ProgressInv Kernel.ProgressProofs.
+From QV Require Import Kernel.GenSpawnTable Kernel.Placement Kernel.Model Kernel.ProofsPin Kernel.Progress Kernel.ProgressInv
+     Kernel.ProgressProofs Kernel.ProgressMeasure Kernel.ProgressEnabled.
+From QV Require TQueue.Model TQueue.Proofs.
 Import ListNotations.
 
-(* the kernel component of every composed execution is a kernel run: all theorems of Properties_C04 / Properties_C07 about
-   runs of Kernel.Model apply to every reachable composed state *)
+(* REFINEMENT.  The kernel component of every composed execution is a kernel run: all theorems of Properties_C04 /
+   Properties_C07 about runs of Kernel.Model (loc_unique, runs_once, nothing_refers_to_freed, arg_semantics,
+   exec_gets_spawn_argument, steal_respects_pin ...) hold in every reachable composed state *)
 Theorem C04p_composed_refines_kernel : forall ns nw ac chunk prog es c,
   crun (cinit ns nw ac chunk prog) es = Some c -> exists tr, run (init ns nw ac) tr = Some c.(ck).
 Proof. exact composed_refines_kernel_l. Qed.
 Print Assumptions C04p_composed_refines_kernel.
 
+(* place / state consistency in every reachable composed state (ProgressInv.cons_ok: a queued or held reference belongs to
+   a runnable task, a worker only holds tasks in the states qthread_master's post-switch knows, a blocked task is
+   FEB_BLOCKED, a freed descriptor belongs to a TERMINATED task, the main task never leaves shepherd 0 / worker 0,
+   targets and shepherd pointers are in range) *)
+Theorem C04p_reachable_consistent : forall ns nw ac chunk prog es c,
+  0 < ns -> 0 < nw -> crun (cinit ns nw ac chunk prog) es = Some c -> kinv c.(ck).
+Proof. exact reachable_kinv_l. Qed.
+Print Assumptions C04p_reachable_consistent.
+
+(* MEASURE_DECREASES.  8 * (operations still to be executed, children's bodies and returns included) + (sum over all task
+   references of their distance to the next body step) strictly decreases with EVERY event: scheduler (pop, steal),
+   dispatch (send home, execute), body operation of any kind (spawn of every variant of GenSpawnTable, failed spawn, yield,
+   migrate_to, blocking system call, blocking / non-blocking wait, return), master post-switch, and the environment's
+   releases of blocked tasks.  pin_inv holds in every reachable state (C04p_reachable_pin_inv). *)
+Theorem C04p_measure_decreases : forall c e c',
+  pin_inv c.(ck) -> cstep c e = Some c' -> measure c' < measure c.
+Proof. exact measure_decreases_l. Qed.
+Print Assumptions C04p_measure_decreases.
+
+Theorem C04p_reachable_pin_inv : forall ns nw ac chunk prog es c,
+  crun (cinit ns nw ac chunk prog) es = Some c -> pin_inv c.(ck).
+Proof. exact reachable_pin_inv_l. Qed.
+Print Assumptions C04p_reachable_pin_inv.
+
+(* TERMINATION.  Every execution of a finite program is finite, whatever the scheduling and however the environment
+   releases blocked tasks: at most 8 * (|program| + 1) + 2 events (no fairness assumption needed for termination) *)
+Theorem C04p_executions_finite : forall ns nw ac chunk prog es c,
+  crun (cinit ns nw ac chunk prog) es = Some c -> length es <= 8 * S (psize prog) + 2.
+Proof. exact executions_finite_init_l. Qed.
+Print Assumptions C04p_executions_finite.
+
+(* ENABLED_IF_WORK (no stranded task), own queue.  PARTIAL in this sense: the simulation relation between queue nodes and
+   kernel references (node_agrees) is a hypothesis about the state; its preservation along executions is checked on the
+   model's runs (ProgressExamples) and on the real runs (quiescent_ok), not proved here. *)
+Theorem C04p_enabled_if_work_own_partial : forall c s w,
+  kinv c.(ck) -> idle c.(ck) s w = true -> s < c.(ck).(nsh) -> w < c.(ck).(nwk) ->
+  TQueue.Model.items (TQueue.Model.getq c.(cs) s) <> [] ->
+  (forall n, In n (TQueue.Model.items (TQueue.Model.getq c.(cs) s)) -> node_agrees c.(ck) s n) ->
+  NoDup (map ntid (TQueue.Model.items (TQueue.Model.getq c.(cs) s))) ->
+  (forall n, TQueue.Model.items (TQueue.Model.getq c.(cs) s) = [n] -> TQueue.Model.mccoy n = true -> packed c.(ck) s w = 0) ->
+  exists c', cstep c (EPop s w) = Some c'.
+Proof. exact enabled_if_work_own_l. Qed.
+Print Assumptions C04p_enabled_if_work_own_partial.
+
+Theorem C04p_enabled_if_work_pop_partial : forall c s w n q',
+  kinv c.(ck) -> idle c.(ck) s w = true -> s < c.(ck).(nsh) -> w < c.(ck).(nwk) ->
+  TQueue.Model.dequeue_worker (TQueue.Model.getq c.(cs) s) (packed c.(ck) s w) = (Some n, q') ->
+  node_agrees c.(ck) s n -> (TQueue.Model.mccoy n = true -> packed c.(ck) s w = 0) ->
+  exists c', cstep c (EPop s w) = Some c' /\ place_of (ntid n) c'.(ck).(places) = Some (Held s w false) /\
+             c'.(cs) = TQueue.Model.setq c.(cs) s q' /\ c'.(cprog) = c.(cprog).
+Proof. exact enabled_if_work_pop_l. Qed.
+Print Assumptions C04p_enabled_if_work_pop_partial.
+
+(* ENABLED_IF_WORK, stranded work: an idle worker of an ENABLED shepherd with an empty own queue obtains a task from any
+   victim holding a stealable node (uses steal_progress / steal_only_stealable of C08 on the exact counters); the task it
+   gets is stealable, hence neither pinned nor the McCoy task.  Unstealable nodes are only ever taken by their own
+   shepherd's workers (the own-queue theorem above), the McCoy task only by worker 0.0. *)
+Theorem C04p_enabled_if_work_steal_partial : forall c s w v,
+  kinv c.(ck) -> idle c.(ck) s w = true -> s < c.(ck).(nsh) -> w < c.(ck).(nwk) -> v < c.(ck).(nsh) -> v <> s ->
+  nthb c.(ck).(active) s = true ->
+  TQueue.Model.items (TQueue.Model.getq c.(cs) s) = [] ->
+  TQueue.Proofs.exact (TQueue.Model.getq c.(cs) v) -> (0 <= TQueue.Model.chunk c.(cs))%Z ->
+  0 < TQueue.Model.count_stl (TQueue.Model.items (TQueue.Model.getq c.(cs) v)) ->
+  (forall n, In n (TQueue.Model.items (TQueue.Model.getq c.(cs) v)) -> node_agrees c.(ck) v n) ->
+  exists c' n, cstep c (ESteal s w v) = Some c' /\ TQueue.Model.stl n = true /\
+               In n (TQueue.Model.items (TQueue.Model.getq c.(cs) v)) /\
+               place_of (ntid n) c'.(ck).(places) = Some (Held s w false).
+Proof. exact enabled_if_work_steal_l. Qed.
+Print Assumptions C04p_enabled_if_work_steal_partial.
+
+(* SPAWN FAILURE (qthread_spawn step 4: `qthread_thread_free(t); return test;`) *)
 Theorem C04p_spawn_failure_leaves_no_trace : forall st caller row shep_param asize src pre rc,
   rc <> 0 ->
   exists st', spawn_call st caller row shep_param asize src pre (Some rc) = SpawnFailed rc st' /\
